@@ -37,6 +37,7 @@ func checkC03(c *Ctx, r *Report) {
 	c03NilType(c, r)
 	c03Assert(c, r)
 	c03Table(c, r)
+	c03GlobalSlice(c, r)
 	c03Reflect(c, r)
 	c03NilMap(c, r)
 	c03Depth(c, r)
@@ -1315,4 +1316,90 @@ func c03NilUse(c *Ctx, r *Report) {
 		}
 	}
 	r.floor("C03.NILUSE", "loads of nil-tolerant fields", n, 4)
+}
+
+// c03GlobalSlice: a prefix cut from a prepared package-level table (`table[:n+1]`) panics when the bound
+// exceeds the table. For every slice expression whose operand is a package-level slice/array variable and
+// whose high bound is not a constant, the bound is written as base + c and a dominating comparison must
+// establish base + c <= len(table): `base <= len - c`, i.e. a guard base < len(table) for c = 1, base <= len for
+// c = 0. (`if len(table) < n { fallback }` followed by table[:n+1] leaves n == len unguarded.)
+func c03GlobalSlice(c *Ctx, r *Report) {
+	n := 0
+	for _, fn := range c.allFns {
+		if !c.inPkg(fn) {
+			continue
+		}
+		k := 0
+		for _, b := range fn.Blocks {
+			for _, in := range b.Instrs {
+				sl, ok := in.(*ssa.Slice)
+				if !ok || sl.High == nil {
+					continue
+				}
+				ld, ok := sl.X.(*ssa.UnOp)
+				if !ok {
+					continue
+				}
+				g, ok := ld.X.(*ssa.Global)
+				if !ok {
+					continue
+				}
+				if _, isC := sl.High.(*ssa.Const); isC {
+					continue
+				}
+				n++
+				k++
+				base, cst := sl.High, int64(0)
+				if bo, ok := sl.High.(*ssa.BinOp); ok && bo.Op == token.ADD {
+					if kc, ok := bo.Y.(*ssa.Const); ok {
+						base, cst = bo.X, kc.Int64()
+					} else if kc, ok := bo.X.(*ssa.Const); ok {
+						base, cst = bo.Y, kc.Int64()
+					}
+				}
+				isLenOfTable := func(v ssa.Value) bool {
+					inner, ok := isLenOf(v)
+					if !ok {
+						return false
+					}
+					u, ok := inner.(*ssa.UnOp)
+					return ok && u.X == ssa.Value(g)
+				}
+				// strongest established slack d with base <= len - d
+				proven := false
+				for _, gd := range blockGuards(b) {
+					gd = normGuard(gd)
+					bo, ok := gd.cond.(*ssa.BinOp)
+					if !ok {
+						continue
+					}
+					op := bo.Op
+					x, y := bo.X, bo.Y
+					if isLenOfTable(x) && sameVal(y, base) {
+						x, y = y, x
+						op = flipOp(op)
+					} else if !(sameVal(x, base) && isLenOfTable(y)) {
+						continue
+					}
+					if !gd.val {
+						op = negOp(op)
+					}
+					// now: base OP len
+					switch op {
+					case token.LSS: // base < len: base <= len-1
+						if cst <= 1 {
+							proven = true
+						}
+					case token.LEQ: // base <= len
+						if cst <= 0 {
+							proven = true
+						}
+					}
+				}
+				r.check("C03.TABLE", fmt.Sprintf("%s: prefix #%d of the package table %s stays inside it", fnName(fn), k, g.Name()), sl.Pos(), proven,
+					fmt.Sprintf("the high bound is %s+%d and no dominating comparison establishes that it does not exceed len(%s): for the one value at the edge of the fallback test the slice expression panics with 'slice bounds out of range'", shortPath(vpath(base)), cst, g.Name()))
+			}
+		}
+	}
+	r.Notes = append(r.Notes, fmt.Sprintf("C03.TABLE: %d variable-length prefixes of package-level tables", n))
 }
